@@ -112,11 +112,25 @@ mod node_ptr {
     }
 }
 
+/////////////////////////////////////////////// Head ///////////////////////////////////////////////
+
+/// The pointer to the head node, and with it the ownership of every node of the list.  The list
+/// and all of its iterators share one `Head`; the nodes are freed when the last of them goes away.
+struct Head<K, V, const MAX_HEIGHT: usize>(AtomicPtr<Node<K, V, MAX_HEIGHT>>);
+
+impl<K, V, const MAX_HEIGHT: usize> std::ops::Deref for Head<K, V, MAX_HEIGHT> {
+    type Target = AtomicPtr<Node<K, V, MAX_HEIGHT>>;
+
+    fn deref(&self) -> &Self::Target {
+        &self.0
+    }
+}
+
 ///////////////////////////////////////////// SkipList /////////////////////////////////////////////
 
 /// A lock-free skip list, generic over keys and values.
 pub struct SkipList<K, V, const MAX_HEIGHT: usize = DEFAULT_MAX_HEIGHT> {
-    head: Arc<AtomicPtr<Node<K, V, MAX_HEIGHT>>>,
+    head: Arc<Head<K, V, MAX_HEIGHT>>,
 }
 
 impl<K: Eq + Ord + Default, V: Default, const MAX_HEIGHT: usize> SkipList<K, V, MAX_HEIGHT> {
@@ -352,14 +366,14 @@ impl<K: Eq + Ord + Default, V: Default, const MAX_HEIGHT: usize> Default
         for idx in 0..MAX_HEIGHT {
             node_ptr::set_next(head, idx, std::ptr::null_mut());
         }
-        let head = Arc::new(AtomicPtr::new(head));
+        let head = Arc::new(Head(AtomicPtr::new(head)));
         Self { head }
     }
 }
 
-impl<K, V, const MAX_HEIGHT: usize> Drop for SkipList<K, V, MAX_HEIGHT> {
+impl<K, V, const MAX_HEIGHT: usize> Drop for Head<K, V, MAX_HEIGHT> {
     fn drop(&mut self) {
-        let mut ptr = self.head.load(Ordering::Acquire);
+        let mut ptr = self.0.load(Ordering::Acquire);
         while !ptr.is_null() {
             let to_drop = ptr;
             ptr = node_ptr::get_next(ptr, 0);
@@ -375,7 +389,7 @@ impl<K, V, const MAX_HEIGHT: usize> Drop for SkipList<K, V, MAX_HEIGHT> {
 /// A SkipList iterator.  Will outlast the skip list it comes from if so chosen.
 #[derive(Clone)]
 pub struct SkipListIterator<K, V, const MAX_HEIGHT: usize = DEFAULT_MAX_HEIGHT> {
-    head: Arc<AtomicPtr<Node<K, V, MAX_HEIGHT>>>,
+    head: Arc<Head<K, V, MAX_HEIGHT>>,
     node: *mut Node<K, V, MAX_HEIGHT>,
 }
 
@@ -551,6 +565,50 @@ mod tests {
         // done
         iter.prev();
         assert!(!iter.is_valid());
+    }
+
+    /// Counts how many values have been dropped.
+    #[derive(Default)]
+    struct CountsDrops(Option<Arc<std::sync::atomic::AtomicUsize>>);
+
+    impl Drop for CountsDrops {
+        fn drop(&mut self) {
+            if let Some(count) = self.0.as_ref() {
+                count.fetch_add(1, Ordering::SeqCst);
+            }
+        }
+    }
+
+    #[test]
+    fn iterator_outlives_list() {
+        let drops = Arc::new(std::sync::atomic::AtomicUsize::new(0));
+        let sl = SkipList::<u64, CountsDrops>::default();
+        for k in 1..=3u64 {
+            sl.insert(k, CountsDrops(Some(Arc::clone(&drops))));
+        }
+        let mut iter = sl.iter();
+        iter.seek_to_first();
+        let mut other = sl.iter();
+        drop(sl);
+        // The nodes live for as long as an iterator is held.
+        assert_eq!(0, drops.load(Ordering::SeqCst));
+        assert!(iter.is_valid());
+        assert_eq!(1, *iter.key());
+        iter.next();
+        assert_eq!(2, *iter.key());
+        iter.next();
+        assert_eq!(3, *iter.key());
+        iter.next();
+        assert!(!iter.is_valid());
+        iter.prev();
+        assert_eq!(3, *iter.key());
+        drop(iter);
+        assert_eq!(0, drops.load(Ordering::SeqCst));
+        other.seek(&2);
+        assert_eq!(2, *other.key());
+        drop(other);
+        // And are released with the last holder.
+        assert_eq!(3, drops.load(Ordering::SeqCst));
     }
 
     fn guacamole_writer(skiplist: Arc<SkipList<u64, u64>>, seed: u64) {
